@@ -472,8 +472,9 @@ func applyImpl(root *ast.Node, o c15Op, holes bool) (out string) {
 		if t.TypeSafe() == ast.V_STRING {
 			return "<skip>"
 		}
-		_, c15LenOnLazy, _ = ast.SimState(t)
 		n, err := t.Len()
+		// a raw node is parsed lazily by Len itself: look at the state Len left behind
+		_, c15LenOnLazy, _ = ast.SimState(t)
 		return fmt.Sprint(n, " ", errc(err))
 	case 4:
 		it, err := t.Values()
